@@ -72,7 +72,7 @@ def pretty(c):
         ir.append(" ".join(str(x) for x in (j["k"], j.get("t", ""), _ex(j["e"]) if "e" in j else "", "if " + _ex(j["c"]) if "c" in j else "",
                                             "ret " + j["ret"] if j.get("ret") else "") if x))
     return {"idx": c["idx"], "arch": c["arch"], "features": c["feat"], "pcode": pc, "lifted_ir": ir, "panic": c["panic"],
-            "initial_states": len(c["inits"]), "first_initial_state": {r["n"]: bytes(reversed(r["v"])).hex() for r in c["inits"][0]}}
+            "initial_states": len(c["inits"]), "first_initial_state": {n: bytes(reversed(v)).hex() for n, v in c["inits"][0].items()}}
 
 
 def _bad_pairs(r):
@@ -120,6 +120,7 @@ def _validate(rep, files, parallel, timeout):
             ev["bad_what"] = inits[0][1].split(",")[0].strip()
             ev["bad_reg"] = inits[0][1].split(",")[1].strip() if "," in inits[0][1] else ""
             ev["bad_inits"] = [i for i, _ in inits]
+            ev["bad_reg_has_cast_to_smaller_view"] = ev["bad_reg"] in ev.get("casts_to_smaller_view_of_base", [])
             what = "case idx=%s of %s: lifted block disagrees with the P-Code reference semantics (%s) for initial states %s" % (
                 ev.get("idx"), os.path.basename(f), inits[0][1], [i for i, _ in inits])
             cex = ""
